@@ -17,6 +17,9 @@ type c10Case struct {
 	Offsets []int    `json:"offsets"`
 	Payload kit.Blob `json:"payload"`
 	Sub2    bool     `json:"secondExtension,omitempty"`
+	// InternalExt (phase extfin): the extension that finishes late is an internal one, registered by the runtime process
+	// itself, and no external extension exists
+	InternalExt bool `json:"internalExtension,omitempty"`
 	// Frontend (phase init): the first caller's request is what starts the initialisation, as in the real binary
 	// (the front end initialises lazily on the first invoke request); the extra callers arrive meanwhile
 	Frontend bool `json:"frontend,omitempty"`
@@ -35,6 +38,13 @@ func (c *c10Case) scenario() *Scenario {
 		sc.Actors["runtime"] = []Script{{Steps: []Step{{Op: "rt.next", Signal: []string{"phase"}}, {Op: "sleep", Ms: c.D},
 			{Op: "rt.response", ID: "cur", BodyMode: "transform"}, loop}}}
 	case "extfin":
+		if c.InternalExt {
+			// the runtime registers an internal extension, polls for it once and then serves invocations promptly; the
+			// extension's later polls are made by the driver (any process can use an identifier), which is what keeps the
+			// first invocation open after the runtime's response
+			sc.Actors["runtime"] = []Script{{Steps: []Step{{Op: "ext.register", Name: "i1", Events: []string{"INVOKE"}}, {Op: "ext.next", Name: "i1", Async: true, Tag: "in0"}, loop}}}
+			break
+		}
 		sc.Config.ExtDir = []DirEntry{{Name: "e1", Kind: "file"}}
 		sc.Actors["ext:e1"] = []Script{{Steps: []Step{{Op: "ext.register", Events: []string{"INVOKE"}}, {Op: "ext.next", Signal: []string{"gotevent"}},
 			{Op: "await", Name: "responded"}, {Op: "signal", Name: "phase"}, {Op: "sleep", Ms: c.D}, {Op: "ext.loop", Events: []string{"INVOKE"}}}}}
@@ -76,6 +86,21 @@ func (c *c10Case) scenario() *Scenario {
 		sc.Driver = append(sc.Driver, Step{Op: "join", Tag: "i0"},
 			Step{Op: "invoke", Tag: "i1", Payload: &kit.Blob{Len: 33, Seed: 9, Kind: "ascii"}},
 			Step{Op: "invoke", Tag: "i2", Payload: &kit.Blob{Len: 34, Seed: 10, Kind: "json"}})
+		return sc
+	}
+	if c.Phase == "extfin" && c.InternalExt {
+		sc.NoWaitAsync = true // the extension's last poll stays parked
+		poll := func(tag string) Step { return Step{Op: "ext.next", Name: "i1", IDMode: "of:i1", Async: true, Tag: tag} }
+		sc.Driver = append(sc.Driver, Step{Op: "invoke", Tag: "i0", Async: true, Payload: &c.Payload}, Step{Op: "sleep", Ms: 60})
+		for i, off := range c.Offsets {
+			sc.Driver = append(sc.Driver, Step{Op: "sleep", Ms: off}, Step{Op: "invoke", Tag: fmt.Sprintf("x%d", i), Payload: &kit.Blob{Len: 5 + i, Seed: uint64(i), Kind: "ascii"}})
+		}
+		sc.Driver = append(sc.Driver, poll("il"), Step{Op: "join", Tag: "i0"})
+		for k, pl := range []kit.Blob{{Len: 33, Seed: 9, Kind: "ascii"}, {Len: 34, Seed: 10, Kind: "json"}} {
+			pl := pl
+			tag := fmt.Sprintf("i%d", k+1)
+			sc.Driver = append(sc.Driver, Step{Op: "invoke", Tag: tag, Async: true, Payload: &pl}, Step{Op: "sleep", Ms: 40}, poll("il"+tag), Step{Op: "join", Tag: tag})
+		}
 		return sc
 	}
 	sc.Driver = append(sc.Driver, Step{Op: "invoke", Tag: "i0", Async: true, Payload: &c.Payload, SigIssued: "issued"})
@@ -260,7 +285,10 @@ func c10Check(c c10Case) kit.Outcome {
 				cause = e.Seq
 			}
 		case "extfin":
-			if e.Actor == "ext:e1#0" && e.Kind == "issue" && e.Call == "ext.next" && e.Step >= 5 && cause == 0 {
+			if !c.InternalExt && e.Actor == "ext:e1#0" && e.Kind == "issue" && e.Call == "ext.next" && e.Step >= 5 && cause == 0 {
+				cause = e.Seq
+			}
+			if c.InternalExt && e.Actor == "driver" && e.Kind == "issue" && e.Call == "ext.next" && e.Tag == "il" && cause == 0 {
 				cause = e.Seq
 			}
 		case "reset":
@@ -351,6 +379,9 @@ func c10Check(c c10Case) kit.Outcome {
 func c10Gen(t *rapid.T) c10Case {
 	c := c10Case{Phase: rapid.SampledFrom([]string{"init", "working", "extfin", "reset", "resetgap", "failreset"}).Draw(t, "phase"),
 		D: rapid.IntRange(50, 400).Draw(t, "d"), Payload: genBlob(t, "p", false)}
+	if c.Phase == "extfin" {
+		c.InternalExt = rapid.Bool().Draw(t, "internalExt")
+	}
 	if c.Phase == "init" {
 		c.Frontend = rapid.Bool().Draw(t, "frontend")
 		c.Ordered = c.Frontend && rapid.Bool().Draw(t, "ordered")
@@ -380,6 +411,7 @@ func c10Fixed() []c10Case {
 		{Phase: "init", D: 60, Offsets: []int{0}, Payload: p, Frontend: true, Ordered: true},
 		{Phase: "init", D: 90, Offsets: []int{0, 0}, Payload: p, Frontend: true, Ordered: true},
 		{Phase: "extfin", D: 150, Offsets: []int{10}, Payload: p},
+		{Phase: "extfin", D: 150, Offsets: []int{10, 40}, Payload: p, InternalExt: true},
 		{Phase: "reset", D: 100, Offsets: []int{50, 100}, Payload: p},
 		{Phase: "failreset", D: 100, Offsets: []int{20, 150}, Payload: p},
 		{Phase: "resetgap", D: 120, Offsets: []int{0}, Payload: p},
